@@ -507,6 +507,7 @@ def probe(schema, dump, validate=True):
         p["sdl"] = schema.to_string(include_custom_schema_directives=False)
     except Exception:  # noqa
         p["to_string_exc"] = traceback.format_exc()[-800:]
+    p["sdl_custom"] = _custom_sdl(schema)
     p["valid"] = _is_valid(schema)
     if p["valid"]:
         try:
@@ -522,6 +523,60 @@ def probe(schema, dump, validate=True):
     return p
 
 
+def _custom_sdl(schema):
+    """to_string(include_custom_schema_directives=True): what the custom-directive printer reads from
+    the `nodes` of every element; an exception is recorded by class"""
+    try:
+        return schema.to_string(include_custom_schema_directives=True)
+    except Exception as e:  # noqa
+        return "EXC %s" % type(e).__name__
+
+
+def _nodes_snapshot(schema):
+    """identity and contents of the mutable `nodes` lists of a schema and of its registered types
+    (the AST definition / extension nodes an element remembers: they carry its applied schema
+    directives): label -> (id of the list, ids of its items)"""
+    out = {}
+    ns = getattr(schema, "nodes", None)
+    if isinstance(ns, list):
+        out["schema"] = (id(ns), tuple(id(x) for x in ns))
+    for n, t in schema.types.items():
+        if n.startswith("__") or n in ser_store.BUILTIN:
+            continue
+        ns = getattr(t, "nodes", None)
+        if isinstance(ns, list):
+            out["type %s" % n] = (id(ns), tuple(id(x) for x in ns))
+    return out
+
+
+def _nodes_changes(before, schema):
+    """elements of `schema` whose nodes list is no longer the list object with the items recorded in
+    `before` (a snapshot of the same schema)"""
+    now = _nodes_snapshot(schema)
+    bad = []
+    for k, (lid, items) in before.items():
+        if k not in now:
+            continue
+        lid2, items2 = now[k]
+        if lid2 == lid and items2 != items:
+            bad.append("%s: nodes list mutated in place (%d -> %d nodes)" % (k, len(items), len(items2)))
+        elif lid2 != lid and items2 != items:
+            bad.append("%s: nodes replaced (%d -> %d nodes)" % (k, len(items), len(items2)))
+    return bad
+
+
+def _sdir_on_fresh_clone(source):
+    """apply_schema_directives (with the removing / renaming directives of the harness) on a fresh
+    clone of the source: the dump of the result, or the class of the library error"""
+    try:
+        r = apply_schema_directives(source.clone(), [Rename, Remove])
+        return {"dump": ser_store.dump_schema(r), "sdl_custom": _custom_sdl(r)}
+    except LIB_ERRORS as e:
+        return {"rejected": type(e).__name__}
+    except Exception:  # noqa
+        return {"crash": traceback.format_exc()[-800:]}
+
+
 # ----------------------------------------------------------------- run
 def run_impl(case):
     source = build_source(case)
@@ -530,7 +585,9 @@ def run_impl(case):
     init = {"objs": heap.objs, "schema": init_rec}
     dump0 = ser_store.dump_schema(source)
     probe0 = probe(source, dump0)
+    sdir0 = _sdir_on_fresh_clone(source)
     schemas = [source]
+    snaps = {0: (_nodes_snapshot(source), probe0.get("sdl_custom"))}      # live schemas: nodes lists, custom SDL
     steps_obs = []
     for i, step in enumerate(case["steps"]):
         so = {"status": "skipped", "dumps": [], "import": None}
@@ -561,6 +618,24 @@ def run_impl(case):
             so["repeat"] = rep
         if res is not None and not step.get("inplace") and step["op"] != "extend":
             so["shared_members"] = _shared_members(target, res)
+        # the `nodes` lists (applied schema directives) of every other live schema: same list, same items,
+        # same custom-directive SDL as when the schema was produced
+        touched = on if step.get("inplace") else None
+        nodes_bad = []
+        for k, (snap, sdlc) in snaps.items():
+            if k == touched or schemas[k] is None:
+                continue
+            for msg in _nodes_changes(snap, schemas[k]):
+                nodes_bad.append("schema %d, %s" % (k, msg))
+            if _custom_sdl(schemas[k]) != sdlc:
+                nodes_bad.append("schema %d: to_string(include_custom_schema_directives=True) changed" % k)
+        so["nodes_bad"] = nodes_bad[:8]
+        if touched is not None and schemas[touched] is not None:
+            snaps[touched] = (_nodes_snapshot(schemas[touched]), _custom_sdl(schemas[touched]))
+        if keep is not None:
+            snaps[i + 1] = (_nodes_snapshot(keep), _custom_sdl(keep))
+            src_lists = {v[0] for v in snaps[0][0].values()}
+            so["shared_nodes_lists"] = sum(1 for v in snaps[i + 1][0].values() if v[0] in src_lists)
         steps_obs.append(so)
     names = set()
     for d in [dump0] + [d for so in steps_obs for _k, d in so["dumps"]]:
@@ -571,7 +646,10 @@ def run_impl(case):
         for x in d["directives"]:
             names.update(a["name"] for a in x["args"])
     camel = sorted([n, snakecase_to_camelcase(n)] for n in names)
-    return {"init": init, "dump0": dump0, "probe0": probe0, "camel": camel, "steps": steps_obs}
+    sdir1 = _sdir_on_fresh_clone(source)
+    return {"init": init, "dump0": dump0, "probe0": probe0, "camel": camel, "steps": steps_obs,
+            "sdir_fresh_same": sdir0 == sdir1,
+            "sdir_fresh": None if sdir0 == sdir1 else {"before": str(sdir0)[:300], "after": str(sdir1)[:300]}}
 
 
 def _member_ids(schema):
@@ -681,7 +759,7 @@ def _extension_losses(target_dump, res_dump, doc):
             continue
         if ("extend type %s " % t["name"] in doc or "extend interface %s " % t["name"] in doc
                 or "extend enum %s " % t["name"] in doc or "extend input %s " % t["name"] in doc
-                or "extend union %s " % t["name"] in doc):
+                or "extend union %s " % t["name"] in doc or "extend scalar %s " % t["name"] in doc):
             # extended: every old member must still be there, unchanged
             old = t.get("fields") or t.get("values") or []
             new = r.get("fields") or r.get("values") or []
@@ -692,6 +770,8 @@ def _extension_losses(target_dump, res_dump, doc):
                     bad.append("%s of extended type %s changed" % (k, t["name"]))
             if r["refs"][:len(t["refs"])] != t["refs"]:
                 bad.append("interfaces/members of extended type %s changed" % t["name"])
+            if r.get("sdirs", [])[:len(t.get("sdirs", []))] != t.get("sdirs", []):
+                bad.append("applied directives of extended type %s changed" % t["name"])
         elif {k: v for k, v in t.items()} != {k: v for k, v in r.items()}:
             bad.append("untouched type %s changed" % t["name"])
     rd = {d["name"]: d for d in res_dump["directives"]}
@@ -729,6 +809,12 @@ def direct_checks(case, obs):
         sp = so.get("source_probe", {})
         if sp.get("sdl") != p0.get("sdl") or "to_string_exc" in sp:
             out.append(("source-untouched: %s changed to_string() of the source" % tag, None))
+        if sp.get("sdl_custom") != p0.get("sdl_custom"):
+            out.append(("source-untouched: %s changed to_string(include_custom_schema_directives=True) of the "
+                        "source" % tag, None))
+        if so.get("nodes_bad"):
+            out.append(("source-untouched: %s changed the AST nodes / applied schema directives another schema "
+                        "remembers: %s" % (tag, so["nodes_bad"][:4]), None))
         if p0.get("valid") and not (sp.get("valid") and sp.get("introspection_ok")
                                     and (sp.get("exec", {}).get("ok") or sp.get("exec", {}).get("skipped"))):
             out.append(("source-untouched: after %s the source can no longer be validated / introspected / "
@@ -769,6 +855,9 @@ def direct_checks(case, obs):
                             % (tag, rep["status"], so["status"], (rep.get("err") or "")[:120]), None))
             elif rep.get("same_dump") is False:
                 out.append(("repeatable: repeating %s gave a different result" % tag, None))
+    if obs.get("sdir_fresh_same") is False:
+        out.append(("source-untouched: after the history, applying schema directives to a fresh clone of the "
+                    "source no longer gives what it gave before: %s" % obs.get("sdir_fresh"), None))
     return out
 
 
@@ -894,6 +983,22 @@ def corpus():
                      .replace("other_field: E", 'other_field: E @rename(to: "o_f") @remove')
                      .replace("on FIELD_DEFINITION", "on FIELD_DEFINITION | ARGUMENT_DEFINITION"),
                      [{"op": "sdir", "on": 0}, {"op": "sdir", "on": 1, "inplace": True}, {"op": "camel", "on": 1}]))
+    # seeded C14-e: extending a clone / a transform with type extensions that carry schema directives must
+    # not record the extension nodes (and their directives) on the source or on its other clones: the
+    # `nodes` lists are shared by clone() and the visitor rebuilds
+    W32E = W32.replace("directive @remove on FIELD_DEFINITION",
+                       "directive @remove on FIELD_DEFINITION | OBJECT | INTERFACE | UNION | ENUM | INPUT_OBJECT | SCALAR"
+                       "\nscalar Sc")
+    EXT = ('extend type Foo @remove { secret: String }\nextend interface Node @remove { extra_n: Int }\n'
+           'extend enum E @remove { C }\nextend input In2 @remove { r: Int }\nextend union U @remove = Orphan\n'
+           'extend scalar Sc @remove')
+    out.append(_case(W32E, [{"op": "clone", "on": 0}, {"op": "extend", "on": 1, "doc": EXT},
+                            {"op": "sdir", "on": 0}, {"op": "extend", "on": 0, "doc": "extend type Bar { n: Int }"},
+                            {"op": "sdir", "on": 4}]))
+    out.append(_case(W32E, [dict(_NOVIS, op="vis", on=0, types=["Orphan"]), {"op": "camel", "on": 0},
+                            {"op": "extend", "on": 1, "doc": "extend type Foo @remove { secret: String }"},
+                            {"op": "extend", "on": 2, "doc": "extend enum E @remove { C }"},
+                            {"op": "sdir", "on": 1}, {"op": "clone", "on": 0}]))
     return out
 
 
@@ -968,7 +1073,10 @@ def extra_evidence(cases, obss):
             statuses[so["status"]] = statuses.get(so["status"], 0) + 1
             inplace += 1 if s.get("inplace") else 0
     ts_fail = sum(1 for o in obss for so in o.get("steps", []) if "to_string_exc" in so.get("result_probe", {}))
+    shared = sum(1 for o in obss for so in o.get("steps", []) if so.get("shared_nodes_lists"))
+    with_res = sum(1 for o in obss for so in o.get("steps", []) if "shared_nodes_lists" in so)
     return {"result_to_string_failures_not_demanded_by_C14": ts_fail,
+            "results_sharing_nodes_list_objects_with_the_source_not_a_violation": [shared, with_res],
             "distribution": {"operations": ops, "step_status": statuses, "in_place_steps": inplace,
                              "history_lengths": lens,
                              "heap_objects_mean": round(sum(len(o["init"]["objs"]) for o in obss if "init" in o)
